@@ -16,6 +16,7 @@ import AITB.Model.LearnPolicies
 import AITB.Props.C11Traces
 import AITB.Props.C11Dyna2
 import AITB.Props.C09a
+import AITB.Props.C11Policies
 import Mathlib.Tactic.NormNum
 
 namespace AITB.Learn
@@ -151,6 +152,83 @@ example : (d2Chain (fun s _ => if s = 0 then 1 else 1) (fun _ _ => 1) (fun _ => 
     = [(0, 1), (0, 1), (0, 1)] := by decide +kernel
 example : (d2Chain (fun s _ => if s = 0 then 1 else 1) (fun _ _ => 1) (fun _ => 0) (fun _ => false) 0 3 0 0).map (fun e => (e.s, e.s1))
     = [(0, 1), (1, 1), (1, 1)] := by decide +kernel
+
+/-! ## 4. discounts changed between steps (`setDiscount`): "all … discounts" over a HISTORY -/
+
+/-- the hull interval of `γ` is closed under backups with any smaller discount -/
+theorem hull_closed_le (γ γ' rmin rmax r : Rat) (hγ'0 : 0 ≤ γ') (hγ' : γ' ≤ γ) (hγ1 : γ < 1) (hr : rmin ≤ r ∧ r ≤ rmax) :
+    Closed (loB rmin γ) (hiB rmax γ) γ' r := by
+  have hc := hull_closed γ rmin rmax r (le_trans hγ'0 hγ') hγ1 hr
+  have hz := hull_zero γ rmin rmax hγ1
+  unfold Closed at hc ⊢
+  constructor
+  · nlinarith [mul_nonneg (sub_nonneg.mpr hγ') (neg_nonneg.mpr hz.1)]
+  · nlinarith [mul_nonneg (sub_nonneg.mpr hγ') hz.2]
+
+/-- an experience tuple together with the discount in force at that step -/
+def EvG.ok (γ rmin rmax : Rat) (e : Ev × Rat) : Prop := e.1.ok rmin rmax ∧ 0 ≤ e.2 ∧ e.2 ≤ γ
+
+def qlRunG (A : Nat) (evs : List (Ev × Rat)) (q : QF) : QF :=
+  evs.foldl (fun q e => qlStep e.2 e.1.α A q e.1.s e.1.a e.1.s1 e.1.r) q
+def hystRunG (A : Nat) (evs : List (Ev × Rat)) (q : QF) : QF :=
+  evs.foldl (fun q e => hystStep e.2 e.1.α e.1.β A q e.1.s e.1.a e.1.s1 e.1.r) q
+def sarsaRunG (evs : List (Ev × Rat)) (q : QF) : QF :=
+  evs.foldl (fun q e => sarsaStep e.2 e.1.α q e.1.s e.1.a e.1.s1 e.1.a1 e.1.r) q
+def esarsaRunPG (pol : QF → Nat → Nat → Rat) (A : Nat) (evs : List (Ev × Rat)) (q : QF) : QF :=
+  evs.foldl (fun q e => esarsaStepP pol e.2 e.1.α A q e.1.s e.1.a e.1.s1 e.1.r) q
+def dqRunG (A : Nat) (evs : List (Ev × Rat)) (d : DQ) : DQ :=
+  evs.foldl (fun d e => dqStep e.2 e.1.α A d e.1.coin e.1.s e.1.a e.1.s1 e.1.r) d
+
+section Discounts
+variable (γ rmin rmax : Rat) (hγ1 : γ < 1)
+include hγ1
+
+/-- **td_bounded with `setDiscount` between steps**: zero table, rewards in [rmin,rmax], per-step step sizes in [0,1] and
+    per-step discounts in [0,γ]: every entry stays in the hull interval of the LARGEST discount used -/
+theorem ql_bounded_discounts (A : Nat) (evs : List (Ev × Rat)) (h : ∀ e ∈ evs, EvG.ok γ rmin rmax e) :
+    Bdd (loB rmin γ) (hiB rmax γ) (qlRunG A evs (fun _ _ => 0)) :=
+  foldl_inv _ (Bdd _ _) (EvG.ok γ rmin rmax)
+    (fun q e he hq => qlStep_Bdd _ _ e.2 e.1.α A q e.1.s e.1.a e.1.s1 e.1.r he.2.1 he.1.2.1.1 he.1.2.1.2
+      (hull_closed_le γ e.2 rmin rmax e.1.r he.2.1 he.2.2 hγ1 he.1.1) hq) evs h _ (Bdd_zero γ rmin rmax hγ1)
+
+theorem hyst_bounded_discounts (A : Nat) (evs : List (Ev × Rat)) (h : ∀ e ∈ evs, EvG.ok γ rmin rmax e) :
+    Bdd (loB rmin γ) (hiB rmax γ) (hystRunG A evs (fun _ _ => 0)) :=
+  foldl_inv _ (Bdd _ _) (EvG.ok γ rmin rmax)
+    (fun q e he hq => hystStep_Bdd _ _ e.2 e.1.α e.1.β A q e.1.s e.1.a e.1.s1 e.1.r he.2.1 he.1.2.1.1 he.1.2.1.2 he.1.2.2.1 he.1.2.2.2
+      (hull_closed_le γ e.2 rmin rmax e.1.r he.2.1 he.2.2 hγ1 he.1.1) hq) evs h _ (Bdd_zero γ rmin rmax hγ1)
+
+theorem sarsa_bounded_discounts (evs : List (Ev × Rat)) (h : ∀ e ∈ evs, EvG.ok γ rmin rmax e) :
+    Bdd (loB rmin γ) (hiB rmax γ) (sarsaRunG evs (fun _ _ => 0)) :=
+  foldl_inv _ (Bdd _ _) (EvG.ok γ rmin rmax)
+    (fun q e he hq => sarsaStep_Bdd _ _ e.2 e.1.α q e.1.s e.1.a e.1.s1 e.1.a1 e.1.r he.2.1 he.1.2.1.1 he.1.2.1.2
+      (hull_closed_le γ e.2 rmin rmax e.1.r he.2.1 he.2.2 hγ1 he.1.1) hq) evs h _ (Bdd_zero γ rmin rmax hγ1)
+
+/-- ExpectedSARSA with any table-dependent sub-stochastic policy object (stored matrix, QGreedyPolicy, EpsilonPolicy) -/
+theorem esarsaP_bounded_discounts (A : Nat) (pol : QF → Nat → Nat → Rat) (hpol : ∀ q, SubDist A (pol q))
+    (evs : List (Ev × Rat)) (h : ∀ e ∈ evs, EvG.ok γ rmin rmax e) :
+    Bdd (loB rmin γ) (hiB rmax γ) (esarsaRunPG pol A evs (fun _ _ => 0)) :=
+  foldl_inv _ (Bdd _ _) (EvG.ok γ rmin rmax)
+    (fun q e he hq => esarsaStep_Bdd_sub _ _ e.2 e.1.α (hull_zero γ rmin rmax hγ1).1 (hull_zero γ rmin rmax hγ1).2 A (pol q) q
+      e.1.s e.1.a e.1.s1 e.1.r he.2.1 he.1.2.1.1 he.1.2.1.2 (hpol q)
+      (hull_closed_le γ e.2 rmin rmax e.1.r he.2.1 he.2.2 hγ1 he.1.1) hq) evs h _ (Bdd_zero γ rmin rmax hγ1)
+
+theorem dq_bounded_discounts (A : Nat) (evs : List (Ev × Rat)) (h : ∀ e ∈ evs, EvG.ok γ rmin rmax e) :
+    DQBdd (loB rmin γ) (hiB rmax γ) (dqRunG A evs ⟨fun _ _ => 0, fun _ _ => 0⟩) := by
+  refine foldl_inv _ (DQBdd _ _) (EvG.ok γ rmin rmax)
+    (fun d e he hd => dqStep_Bdd _ _ e.2 e.1.α A d e.1.coin e.1.s e.1.a e.1.s1 e.1.r he.2.1 he.1.2.1.1 he.1.2.1.2
+      (hull_closed_le γ e.2 rmin rmax e.1.r he.2.1 he.2.2 hγ1 he.1.1) hd) evs h _ ⟨Bdd_zero γ rmin rmax hγ1, ?_⟩
+  intro s a
+  simpa [DQ.qb] using hull_zero γ rmin rmax hγ1
+
+end Discounts
+
+/-- hypotheses satisfiable: discount 1/2, then `setDiscount(3/4)`, then back to 1/4; bound for γ = 3/4 -/
+example : Bdd (loB (-1) (3/4)) (hiB 2 (3/4))
+    (qlRunG 2 [(⟨0, 0, 1, 0, 2, 1, 0, true⟩, 1/2), (⟨1, 1, 0, 0, -1, 1/2, 0, true⟩, 3/4), (⟨0, 1, 0, 0, 2, 1, 0, true⟩, 1/4)] (fun _ _ => 0)) :=
+  ql_bounded_discounts (3/4) (-1) 2 (by norm_num) 2 _ (by
+    intro e he
+    simp only [List.mem_cons, List.mem_nil_iff, or_false] at he
+    rcases he with rfl | rfl | rfl <;> (unfold EvG.ok Ev.ok; norm_num))
 
 /-! ## 3. RLearning: the update as written is not Schwartz's rule (observation outside C11's quantifier) -/
 
